@@ -7,6 +7,7 @@ import sys
 import traceback
 
 from . import boot
+from . import purity, solve
 from .runner import jdefault
 
 
@@ -20,9 +21,17 @@ def main():
     with open(outfile, "w") as out:
         for case in cases:
             try:
+                solve.begin_case(case)
                 res = mod.run_case(case) or {}
             except Exception:
                 res = {"harness_error": traceback.format_exc()}
+            pv, pc = purity.drain()
+            if pv and "harness_error" not in res:
+                res.setdefault("violations", []).extend(pv)
+            if pc and "harness_error" not in res:
+                cnt = res.setdefault("counters", {})
+                for k, v in pc.items():
+                    cnt[k] = cnt.get(k, 0) + v
             res["_i"] = case.get("_i", 0)
             res["_world"] = os.environ.get("VERIF_KERNEL_WORLD", "S")
             out.write(json.dumps(res, default=jdefault) + "\n")
